@@ -123,6 +123,8 @@ def main(tier: str, seed: int, replay: str | None = None) -> int:
         for k in range(npg):
             if k % 4 == 3:
                 prog = E.gen_nested_elim(rng, h)
+            elif k % 4 == 1:
+                prog = E.gen_merge_program(rng, h)      # bounded, constrained variables identified afterwards
             else:
                 prog = E.gen_program(rng, h)
                 if len(prog[0][1][2]) < 2 and rng.random() < 0.8:
@@ -152,7 +154,9 @@ def main(tier: str, seed: int, replay: str | None = None) -> int:
         # search harder for a concrete input on which the property fails
         for h, _ in items[2:]:
             for _ in range(400 if tier == "quick" else 3000):
-                prog = E.gen_nested_elim(rng, h) if rng.random() < 0.7 else E.gen_program(rng, h)
+                r = rng.random()
+                prog = E.gen_nested_elim(rng, h) if r < 0.5 else E.gen_merge_program(rng, h) if r < 0.8 \
+                    else E.gen_program(rng, h)
                 runs, _ = explore(h, prog, cap)
                 intensified += len(runs)
                 if len(runs) > 1 and judge(rep, h, prog, runs, f"search_{intensified}"):
@@ -162,7 +166,8 @@ def main(tier: str, seed: int, replay: str | None = None) -> int:
     rep.coverage.update({
         "evaluations": n_runs, "distinct_nontrivial": multi, "disagreements": dis,
         "model_vs_impl_runs": n, "intensified_search_runs": intensified,
-        "rule": "C03's constrained schemas/arguments (>= 2 constraints preferred); for each program all choice vectors "
+        "rule": "C03's constrained schemas/arguments (>= 2 constraints preferred), the nested-elimination family and the "
+                "merge family (bounded, constrained variables identified by a second operator); for each program all choice vectors "
                 f"(all permutations at every re-check point with 2-4 pending constraints, depth-first, at most {cap} runs per "
                 "program); non-trivial = program with at least one choice point (>= 2 distinct schedules run)",
         "programs": n_prog, "programs_fully_enumerated": exhaustive_progs,
